@@ -135,6 +135,10 @@ def alias_root(v):
                 if _basic_index(key):
                     a = a[1]
                     continue
+                if a[1][0] == 'sym' and '.' in str(a[1][1]) and not str(a[1][1]).startswith('lentil.'):
+                    # TABLE[key] of a module-level container: the element itself, not a copy of it
+                    a = a[1]
+                    continue
                 return None if _fancy(key) else a
             if k == 'app':
                 if a[1].startswith('call:') or a[1].startswith('new:'):
